@@ -100,6 +100,8 @@ def r2(ctx, L):
             for it_ in e4.path_conditions(c, ufn["body"], oc) or []:
                 cn_ = strip(it_["c"])
                 okc = cn_ is not None and cn_.get("k") == "letx" and it_["pol"] and any(y.get("k") == "field" and y["f"] == "bias" for y in walk(cn_["init"]))
+                if not okc and it_.get("panics"):
+                    okc = True      # the other way out of this condition is a panic (an unwrap written out): no step is skipped silently
                 if not okc:
                     bad_g.append(short(pretty(cn_), 60))
         ctx.check("R04.2", "every-group-steps", bool(ocalls) and not bad_g, "optimizer-step-conditional-on:" + ";".join(sorted(set(bad_g)))[:100], c.loc(ufn),
@@ -110,7 +112,11 @@ def r2(ctx, L):
     ok = False
     if it.get("k") == "struct" and it["path"] == "std::ops::Range":
         fs = dict((a_, b_) for a_, b_ in it["fs"])
-        N = e1.Norm(c)
+        from .. import arms as _arms
+        try:
+            N = e1.Norm(c, _arms.fn_level_env(c, fn, upto=L.epoch))        # named bounds (`let end = epochs + 1`) are expanded
+        except (ValueError, KeyError):
+            N = e1.Norm(c)
         ok = str(N.norm(fs["start"])) == "1" and N.norm(fs["end"]) == Rat.atom("epochs") + 1
     ctx.check("R04.2", "epoch-range", ok, "epoch-range:" + short(pretty(it), 60), c.loc(fn, L.epoch), "for epoch in 1..epochs+1")
 
